@@ -110,12 +110,12 @@ RegClient(cfg, cer, rk) ==
     [present |-> TRUE, cdType |-> "webauthn.create", chalOk |-> TRUE, originOk |-> TRUE, crossOrigin |-> FALSE,
      copiesEqual |-> TRUE, attFmt |-> "none", idOk |-> TRUE, rawIdOk |-> TRUE, coseEqDer |-> TRUE, algReported |-> -7,
      credProps |-> IF cer.req.credProps = "true" THEN (IF C!Discoverable(cfg, rk) THEN "true" ELSE "false") ELSE "absent",
-     orderOk |-> TRUE]
+     orderOk |-> TRUE, reparse |-> TRUE]
 
 AuthClient ==
     [present |-> TRUE, cdType |-> "webauthn.get", chalOk |-> TRUE, originOk |-> TRUE, crossOrigin |-> FALSE,
      copiesEqual |-> TRUE, attFmt |-> "none", idOk |-> TRUE, rawIdOk |-> TRUE, coseEqDer |-> TRUE, algReported |-> 0,
-     credProps |-> "absent", orderOk |-> TRUE]
+     credProps |-> "absent", orderOk |-> TRUE, reparse |-> TRUE]
 
 \* wrap a step of the inner CTAP2 ceremony
 Wrap(cfg, cer, r) ==
